@@ -5,6 +5,14 @@ FN = "src/allmydata/immutable/filenode.py"
 RP = "src/allmydata/immutable/repairer.py"
 ND = "src/allmydata/immutable/downloader/node.py"
 
+_ROOTFIX = ("            try:\n                # the root of the block hash tree is this share's leaf of the\n"
+       "                # share hash tree, not whatever the share itself claims\n"
+       "                share_hash = self.share_hash_tree.get_leaf(self.sharenum)\n"
+       "                if not share_hash:\n                    raise hashtree.NotEnoughHashesError\n"
+       "                self.block_hash_tree.set_hashes({0: share_hash})\n"
+       "                self.block_hash_tree.set_hashes(bh)\n")
+_ROOTUNFIX = "            try:\n                self.block_hash_tree.set_hashes(bh)\n"
+
 MUTANTS = [
     # -- C45.1 UEB hash gate
     M("ueb-compare-wrong-field", CK,
@@ -45,8 +53,8 @@ MUTANTS = [
       "            log.msg(\" blockhashes:\\n\" + \"\\n\".join(lines) + \"\\n\")\n            raise BadOrMissingHash(le)\n",
       "            log.msg(\" blockhashes:\\n\" + \"\\n\".join(lines) + \"\\n\")\n", "C45.3"),
     M("block-root-from-leaf-zero", CK,
-      "                share_hash = self.share_hash_tree.get_leaf(self.sharenum)",
-      "                share_hash = self.share_hash_tree.get_leaf(0)", "C45.3"),
+      "                # Get the share hash from the share hash tree.\n                share_hash = self.share_hash_tree.get_leaf(self.sharenum)",
+      "                # Get the share hash from the share hash tree.\n                share_hash = self.share_hash_tree.get_leaf(0)", "C45.3"),
     M("crypttext-hashes-not-validated", CK,
       "                crypttext_hash_tree.set_hashes(ct_hashes)\n", "                pass\n", "C45.3"),
     M("sharehash-failure-swallowed", CK,
@@ -189,13 +197,12 @@ MUTANTS = [
       "        sharehashes, blockhashes, blockdata = results\n"
       "        self.block_hash_tree = hashtree.IncompleteHashTree(self.num_blocks)\n        try:\n            sharehashes = dict(sharehashes)",
       "C45.10"),
-    # the two minimal repairs of the known finding C45.10 / get_all_blockhashes._got_block_hashes: the check is silent on them
-    M("repair-root-seeded-before-blockhashes", CK,
-      "            try:\n                self.block_hash_tree.set_hashes(bh)\n",
-      "            try:\n                share_hash = self.share_hash_tree.get_leaf(self.sharenum)\n"
-      "                if not share_hash:\n                    raise hashtree.NotEnoughHashesError\n"
-      "                self.block_hash_tree.set_hashes({0: share_hash})\n"
-      "                self.block_hash_tree.set_hashes(bh)\n", None),
+    # the defect repaired by the fix: commit in /repo (all block hashes accepted into a rootless tree), re-introduced
+    M("all-blockhashes-accepted-without-root", CK, _ROOTFIX, _ROOTUNFIX, "C45.10"),
+    M("all-blockhashes-root-seeded-after", CK,
+      "                self.block_hash_tree.set_hashes({0: share_hash})\n                self.block_hash_tree.set_hashes(bh)\n",
+      "                self.block_hash_tree.set_hashes(bh)\n                self.block_hash_tree.set_hashes({0: share_hash})\n", "C45.10"),
+    # two other repairs of the same defect: the check is silent on them as well
     M("repair-root-compared-on-every-block", CK,
       "            if not self.block_hash_tree[0]: # empty -- no root node yet\n"
       "                # Get the share hash from the share hash tree.\n"
@@ -216,7 +223,7 @@ MUTANTS = [
       "            share_hash = self.share_hash_tree.get_leaf(self.sharenum)\n"
       "            if not share_hash:\n                raise BadOrMissingHash()\n"
       "            self.block_hash_tree.set_hashes({0: share_hash})\n"
-      "        d.addCallback(_got_share_hashes)", None),
+      "        d.addCallback(_got_share_hashes)", None, edits=[(CK, _ROOTFIX, _ROOTUNFIX)]),
     # -- benign
     M("benign-segsize-is-not-none", ND,
       "        if self.segment_size:\n            return defer.succeed(self.segment_size)\n",
@@ -252,8 +259,8 @@ MUTANTS = [
       "            elif f.check(RemoteException):\n                return (False, sharenum, 'failure')",
       "            if f.check(RemoteException):\n                return (False, sharenum, 'failure')", None),
     M("benign-local-renamed", CK,
-      "                share_hash = self.share_hash_tree.get_leaf(self.sharenum)\n                if not share_hash:",
-      "                leaf = share_hash = self.share_hash_tree.get_leaf(self.sharenum)\n                if not leaf:", None),
+      "                # Get the share hash from the share hash tree.\n                share_hash = self.share_hash_tree.get_leaf(self.sharenum)\n                if not share_hash:",
+      "                # Get the share hash from the share hash tree.\n                leaf = share_hash = self.share_hash_tree.get_leaf(self.sharenum)\n                if not leaf:", None),
     M("benign-offset-plus-form", RP, "        self._offset += length\n", "        self._offset = self._offset + length\n", None),
     M("benign-size-compare-flipped", CK,
       "            if d['size'] != self._verifycap.size:", "            if not self._verifycap.size == d['size']:", None),
